@@ -26,6 +26,7 @@ Section Attrs.
 Variables (utf8_flag : bool) (ss : list str) (padding : list Z) (sysattr : list (Z * str)).
 Hypothesis Hfits : Forall (fits utf8_flag) ss.
 Hypothesis Hcount : Z.of_nat (length ss) < NONE.
+Variable res : list Z.                        (* the resource map: resource ids of the first strings of the pool *)
 Let p := pool_of utf8_flag ss padding.
 Notation sat := (str_at ss).
 
@@ -73,8 +74,15 @@ Qed.
 Definition attr_text (a : attr) : result str :=
   do v <- format_value (fun _ => if a_type a =? 3 then sat (a_raw a) else []) (a_type a) (a_data a); Ok (fix_value v).
 Definition attr_text_or (a : attr) : str := match attr_text a with Ok v => v | Err _ => [] end.
-Definition attr_key (a : attr) : str := print_ns (sat (a_ns a)) ++ sat (a_name a).
-Definition wf_pattr (a : attr) : Prop := wf_attr a /\ plain_name (sat (a_name a)) /\ exists v, attr_text a = Ok v.
+(* the name: the system attribute name of the resource id when the resource map covers the name and the table knows the id
+   (its underscores as colons), else the string of the pool *)
+Definition name_of (a : attr) : str :=
+  match PoolModel.nthz res (a_name a) with
+  | Some id => match assoc_z id sysattr with Some nm => map (fun c => if c =? 95 then 58 else c) nm | None => sat (a_name a) end
+  | None => sat (a_name a)
+  end.
+Definition attr_key (a : attr) : str := print_ns (sat (a_ns a)) ++ name_of a.
+Definition wf_pattr (a : attr) : Prop := wf_attr a /\ plain_name (name_of a) /\ exists v, attr_text a = Ok v.
 Definition attrs_of (l : list attr) (acc : list (str * str)) : list (str * str) :=
   fold_left (fun m a => put (attr_key a) (attr_text_or a) m) l acc.
 
@@ -84,17 +92,21 @@ Lemma set_attr_put k v m : set_attr k v m = put k v m.
 Proof. destruct k; reflexivity. Qed.
 Lemma nthz_nil {A} i : @PoolModel.nthz A [] i = None.
 Proof. unfold PoolModel.nthz. cbn [length]. now replace ((i <? 0) || (Z.of_nat 0 <=? i)) with true by lia. Qed.
-Lemma attr_name_plain a : plain_name (sat (a_name a)) -> attr_name p sysattr [] a = Ok (sat (a_name a)).
+Lemma name_match (r : str) (X : result str) : plain_name r -> match r with [] | [58] => X | _ => Ok r end = Ok r.
 Proof.
-  intros Hp. unfold attr_name. rewrite gs_total. cbn [bind]. rewrite nthz_nil.
-  destruct (sat (a_name a)) as [|c r] eqn:E; [contradiction|]. destruct Hp as (H1 & _ & _).
+  destruct r as [|c r]; [contradiction|]. intros (H1 & _ & _).
   destruct c as [|q|q]; try reflexivity. do 6 (destruct q as [q|q|]; try reflexivity). discriminate H1.
 Qed.
+Lemma attr_name_res a : plain_name (name_of a) -> attr_name p sysattr res a = Ok (name_of a).
+Proof.
+  intros Hp. unfold attr_name. rewrite gs_total. cbn [bind]. unfold name_of in *.
+  destruct (PoolModel.nthz res (a_name a)) as [id|]; [destruct (assoc_z id sysattr) as [nm|]|]; apply name_match; exact Hp.
+Qed.
 
-Lemma build_attrs_total nsmap : forall l acc, Forall wf_pattr l -> build_attrs p sysattr [] nsmap l acc = Ok (attrs_of l acc).
+Lemma build_attrs_total nsmap : forall l acc, Forall wf_pattr l -> build_attrs p sysattr res nsmap l acc = Ok (attrs_of l acc).
 Proof.
   induction l as [|a l IH]; intros acc Hw; [reflexivity|]. apply Forall_cons_iff in Hw as [(Wa & Hp & v & Hv) Wl].
-  cbn [build_attrs]. unfold attr_ns. rewrite gs_opt. cbn [bind]. rewrite (attr_name_plain a Hp). cbn [bind].
+  cbn [build_attrs]. unfold attr_ns. rewrite gs_opt. cbn [bind]. rewrite (attr_name_res a Hp). cbn [bind].
   rewrite (fix_name_plain_any nsmap (print_ns (sat (a_ns a))) _ Hp). cbn [bind]. rewrite attr_value_total, Hv. cbn [bind].
   rewrite set_attr_put, (IH _ Wl). unfold attrs_of. cbn [fold_left]. unfold attr_key, attr_text_or. now rewrite Hv.
 Qed.
@@ -113,7 +125,7 @@ Fixpoint wf_atree (t : atree) : Prop :=
   end.
 
 Lemma resolve_start_attrs ns n ats : 0 <= n < Z.of_nat (length ss) -> plain_name (sat n) -> Forall wf_pattr ats ->
-  resolve p sysattr [] (EStart ns n ats NONE nss) false = Ok (TStart (print_ns (sat ns) ++ sat n) (nsmap_of nss []) (attrs_of ats [])).
+  resolve p sysattr res (EStart ns n ats NONE nss) false = Ok (TStart (print_ns (sat ns) ++ sat n) (nsmap_of nss []) (attrs_of ats [])).
 Proof.
   intros Hn Hp Ha. cbn [resolve]. rewrite gs_opt. cbn [bind]. destruct (sat n) as [|c r] eqn:E; [contradiction|].
   rewrite Z.eqb_refl. cbn [negb]. rewrite gs_opt. cbn [bind]. rewrite build_nsmap_total. cbn [bind].
@@ -128,12 +140,12 @@ Proof.
 Qed.
 
 Lemma attrs_resolved : forall t, wf_atree t ->
-  Forall2 (fun er te => resolve p sysattr (snd er) (fst er) false = Ok te) (events (aitems t) nss []) (flatten (atree_of t)).
+  Forall2 (fun er te => resolve p sysattr (snd er) (fst er) false = Ok te) (events (aitems t) nss res) (flatten (atree_of t)).
 Proof.
   intros t. pattern t. apply atree_ind'. clear t. intros ns n ats tx tl kids IH Hw. cbn [wf_atree] in Hw.
   destruct Hw as (Hns & Hn & Hp & Ha & _ & _ & Htx & Htl & Hk). cbn [aitems events atree_of flatten].
   constructor; [exact (resolve_start_attrs ns n ats Hn Hp Ha)|].
-  constructor; [exact (resolve_text_index utf8_flag ss padding sysattr Hfits Hcount [] tx Htx)|].
+  constructor; [exact (resolve_text_index utf8_flag ss padding sysattr Hfits Hcount res tx Htx)|].
   induction kids as [|k kids IHk].
   - cbn [flat_map map app events]. constructor; [|constructor]. cbn [fst snd]. apply (resolve_end_plain utf8_flag ss padding sysattr Hfits Hcount); assumption.
   - apply Forall_cons_iff in IH as [Pk Pr]. destruct Hk as [Wk Wr]. cbn [flat_map map]. rewrite <- !app_assoc.
@@ -171,44 +183,75 @@ Lemma events_ns_ends_nil : forall l ns res, events (map (fun d => INsEnd 0 NONE 
 Proof. induction l as [|[a b] r IH]; intros ns res; cbn [map events fst snd]; [reflexivity | apply IH]. Qed.
 Definition wf_decl (d : Z * Z) : Prop := fits32 (fst d) /\ fits32 (snd d).
 
+Definition wf_res (ids : list Z) : Prop := Forall (fun x => 0 <= x < 4294967296) ids /\ 8 + 4 * Z.of_nat (length ids) < 4294967296.
+
+(* with a resource map in front (as aapt writes manifests): the names of the attributes it covers come from the system
+   attribute table *)
+Theorem manifest_document_round_trip (utf8_flag : bool) ss padding sysattr ids decls t :
+  Forall (fits utf8_flag) ss -> Z.of_nat (length ss) < NONE -> wf_res ids -> Forall wf_decl decls ->
+  wf_atree ss sysattr ids t -> atail t = NONE ->
+  28 + 4 * Z.of_nat (length ss) + PoolModel.len (concat (map (if utf8_flag then entry8 else entry16) ss)) < 4294967296 ->
+  PoolModel.len (doc_bytes utf8_flag ss padding (IResMap ids :: adoc_items decls t)) < 4294967296 ->
+  parse_axml sysattr (doc_bytes utf8_flag ss padding (IResMap ids :: adoc_items decls t)) = Ok (Some (atree_of ss sysattr ids decls t)).
+Proof.
+  intros Hf Hc Hr Hd Hw Ht Hp Hl.
+  assert (F0 : fits32 0) by (unfold fits32; lia). assert (FN : fits32 NONE) by (unfold fits32, NONE; lia).
+  apply (document_is_parsed utf8_flag ss padding (IResMap ids :: adoc_items decls t) sysattr (atree_of ss sysattr ids decls t)).
+  - constructor; [exact Hr|]. unfold adoc_items. apply Forall_app. split; [|apply Forall_app; split].
+    + unfold ns_starts. apply Forall_map. eapply Forall_impl; [|exact Hd]. intros d [H1 H2]. cbn [wf_item]. tauto.
+    + eapply wf_aitems; eassumption.
+    + unfold ns_ends. apply Forall_map. apply Forall_rev. eapply Forall_impl; [|exact Hd]. intros d [H1 H2]. cbn [wf_item]. tauto.
+  - exact Hp.
+  - exact Hl.
+  - rewrite atail_of, Ht. exact (str_at_none ss Hc).
+  - cbn [events app]. unfold adoc_items. rewrite events_ns_starts. cbn [app]. rewrite (events_app_ev _ _ _ _ (ev_only_aitems t)).
+    unfold ns_ends. rewrite events_ns_ends_nil, app_nil_r. eapply attrs_resolved; eassumption.
+Qed.
+Print Assumptions manifest_document_round_trip.
+
+(* without a resource map *)
 Theorem attribute_document_round_trip (utf8_flag : bool) ss padding sysattr decls t :
   Forall (fits utf8_flag) ss -> Z.of_nat (length ss) < NONE -> Forall wf_decl decls ->
-  wf_atree ss t -> atail t = NONE ->
+  wf_atree ss sysattr [] t -> atail t = NONE ->
   28 + 4 * Z.of_nat (length ss) + PoolModel.len (concat (map (if utf8_flag then entry8 else entry16) ss)) < 4294967296 ->
   PoolModel.len (doc_bytes utf8_flag ss padding (adoc_items decls t)) < 4294967296 ->
-  parse_axml sysattr (doc_bytes utf8_flag ss padding (adoc_items decls t)) = Ok (Some (atree_of ss decls t)).
+  parse_axml sysattr (doc_bytes utf8_flag ss padding (adoc_items decls t)) = Ok (Some (atree_of ss sysattr [] decls t)).
 Proof.
   intros Hf Hc Hd Hw Ht Hp Hl.
   assert (F0 : fits32 0) by (unfold fits32; lia). assert (FN : fits32 NONE) by (unfold fits32, NONE; lia).
-  apply (document_is_parsed utf8_flag ss padding (adoc_items decls t) sysattr (atree_of ss decls t)).
+  apply (document_is_parsed utf8_flag ss padding (adoc_items decls t) sysattr (atree_of ss sysattr [] decls t)).
   - unfold adoc_items. apply Forall_app. split; [|apply Forall_app; split].
     + unfold ns_starts. apply Forall_map. eapply Forall_impl; [|exact Hd]. intros d [H1 H2]. cbn [wf_item]. tauto.
-    + exact (wf_aitems ss Hc t Hw).
+    + eapply wf_aitems; eassumption.
     + unfold ns_ends. apply Forall_map. apply Forall_rev. eapply Forall_impl; [|exact Hd]. intros d [H1 H2]. cbn [wf_item]. tauto.
   - exact Hp.
   - exact Hl.
   - rewrite atail_of, Ht. exact (str_at_none ss Hc).
   - unfold adoc_items. rewrite events_ns_starts. cbn [app]. rewrite (events_app_ev _ _ _ _ (ev_only_aitems t)).
-    unfold ns_ends. rewrite events_ns_ends_nil, app_nil_r. exact (attrs_resolved utf8_flag ss padding sysattr Hf Hc decls t Hw).
+    unfold ns_ends. rewrite events_ns_ends_nil, app_nil_r. eapply attrs_resolved; eassumption.
 Qed.
 Print Assumptions attribute_document_round_trip.
 
-(* <manifest xmlns:android="http://a/res" package="com.x" android:versionCode="7"><application android:name="com.x"/></manifest> *)
-Definition ax_ss : list str := [[97; 110; 100; 114; 111; 105; 100]; [104; 116; 116; 112; 58; 47; 47; 97; 47; 114; 101; 115]; [109; 97; 110; 105; 102; 101; 115; 116]; [112; 97; 99; 107; 97; 103; 101]; [99; 111; 109; 46; 120]; [118; 101; 114; 115; 105; 111; 110; 67; 111; 100; 101]; [97; 112; 112; 108; 105; 99; 97; 116; 105; 111; 110]; [110; 97; 109; 101]].
+(* <manifest xmlns:android="http://a/res" package="com.x" android:versionCode="7"><application android:name="com.x"/></manifest>
+   with a resource map for the first two strings; the name string of versionCode is empty in the pool (stripped), the
+   name comes from the system attribute table *)
+Definition ax_ss : list str := [[]; [110; 97; 109; 101]; [97; 110; 100; 114; 111; 105; 100]; [104; 116; 116; 112; 58; 47; 47; 97; 47; 114; 101; 115]; [109; 97; 110; 105; 102; 101; 115; 116]; [112; 97; 99; 107; 97; 103; 101]; [99; 111; 109; 46; 120]; [97; 112; 112; 108; 105; 99; 97; 116; 105; 111; 110]].
+Definition ax_ids : list Z := [16843291; 16842755].
+Definition ax_sys : list (Z * str) := [(16843291, [118; 101; 114; 115; 105; 111; 110; 67; 111; 100; 101]); (16842755, [110; 97; 109; 101])].
 Definition ax_tree : atree :=
-  ANode NONE 2 [{| a_ns := NONE; a_name := 3; a_raw := 4; a_type := 3; a_data := 4 |};
-                {| a_ns := 1; a_name := 5; a_raw := NONE; a_type := 16; a_data := 7 |}] NONE NONE
-    [ANode NONE 6 [{| a_ns := 1; a_name := 7; a_raw := 4; a_type := 3; a_data := 4 |}] NONE NONE []].
+  ANode NONE 4 [{| a_ns := NONE; a_name := 5; a_raw := 6; a_type := 3; a_data := 6 |};
+                {| a_ns := 3; a_name := 0; a_raw := NONE; a_type := 16; a_data := 7 |}] NONE NONE
+    [ANode NONE 7 [{| a_ns := 3; a_name := 1; a_raw := 6; a_type := 3; a_data := 6 |}] NONE NONE []].
 Definition ax_xml : xml :=
   El [109; 97; 110; 105; 102; 101; 115; 116] [([97; 110; 100; 114; 111; 105; 100], [104; 116; 116; 112; 58; 47; 47; 97; 47; 114; 101; 115])] [([112; 97; 99; 107; 97; 103; 101], [99; 111; 109; 46; 120]); ([123; 104; 116; 116; 112; 58; 47; 47; 97; 47; 114; 101; 115; 125; 118; 101; 114; 115; 105; 111; 110; 67; 111; 100; 101], [55])] []
      [El [97; 112; 112; 108; 105; 99; 97; 116; 105; 111; 110] [([97; 110; 100; 114; 111; 105; 100], [104; 116; 116; 112; 58; 47; 47; 97; 47; 114; 101; 115])] [([123; 104; 116; 116; 112; 58; 47; 47; 97; 47; 114; 101; 115; 125; 110; 97; 109; 101], [99; 111; 109; 46; 120])] [] [] []] [].
-Example attribute_example :
-  wf_atree ax_ss ax_tree /\ atree_of ax_ss [(0, 1)] ax_tree = ax_xml /\
-  parse_axml [] (doc_bytes false ax_ss [] (adoc_items [(0, 1)] ax_tree)) = Ok (Some ax_xml).
+Example manifest_example :
+  wf_atree ax_ss ax_sys ax_ids ax_tree /\ atree_of ax_ss ax_sys ax_ids [(2, 3)] ax_tree = ax_xml /\
+  parse_axml ax_sys (doc_bytes true ax_ss [] (IResMap ax_ids :: adoc_items [(2, 3)] ax_tree)) = Ok (Some ax_xml).
 Proof.
-  assert (F : Forall (fits false) ax_ss).
+  assert (F : Forall (fits true) ax_ss).
   { unfold ax_ss. repeat constructor; unfold valid_cp; try lia; vm_compute; reflexivity. }
-  assert (W : wf_atree ax_ss ax_tree).
+  assert (W : wf_atree ax_ss ax_sys ax_ids ax_tree).
   { cbn [wf_atree ax_tree]. unfold wf_pattr, wf_attr, fits32, text_index, plain_name, NONE. cbn [a_ns a_name a_raw a_type a_data].
     repeat match goal with
            | |- _ /\ _ => split
@@ -217,7 +260,8 @@ Proof.
            | |- True => exact I
            | |- _ \/ _ => left; reflexivity
            end; try lia; try (vm_compute; reflexivity); try (vm_compute; lia); try (vm_compute; intuition congruence). }
-  assert (E : atree_of ax_ss [(0, 1)] ax_tree = ax_xml) by (vm_compute; reflexivity).
+  assert (E : atree_of ax_ss ax_sys ax_ids [(2, 3)] ax_tree = ax_xml) by (vm_compute; reflexivity).
   split; [exact W|]. split; [exact E|]. rewrite <- E.
-  apply attribute_document_round_trip; [exact F | vm_compute; reflexivity | repeat constructor; unfold fits32; cbn; lia | exact W | reflexivity | vm_compute; reflexivity | vm_compute; reflexivity].
+  apply manifest_document_round_trip; [exact F | vm_compute; reflexivity | split; [repeat constructor; lia | cbn; lia] | repeat constructor; unfold fits32; cbn; lia
+                                     | exact W | reflexivity | vm_compute; reflexivity | vm_compute; reflexivity].
 Qed.
